@@ -36,6 +36,7 @@ class C06(Check):
         "of the C04 single-record scope (length<=Ls over {A,n,g}) x buffers, object end == record length by construction. Validator: rows tile "
         "from 1, part numbers 1.., W span == component span, gap span == stated length, U/yes/type, last end == Scaffold.length / record length. "
         "non-trivial = AGP text with at least two rows in one object"
+        " Further hosts: FASTA + AGP written from one assembly object over the C03 row scope at buffers {1,2,3,4,11} (record length == AGP end); FASTA files whose second record repeats the first name (refused, or the cache AGP must still be valid)."
     )
     assumptions = ["validator is an independent line parser (mc/agpcheck.py); gap evidence column only required non-empty"]
     shard_timeout = {"quick": 600, "thorough": 3600}
